@@ -15,6 +15,7 @@ import os
 
 import vlib
 import progs
+from gen import shapes
 
 THEOREM_MODULES = ["Yarel.Props.C13", "Yarel.Props.C12", "Yarel.Props.C04", "Yarel.Props.StackGuardThm", "Yarel.Props.FnsTie.NoPanic"]
 REQUIRED_THEOREMS = ["no_fault", "unhashable_rejected_unchanged", "verify_sound", "guard_free_equiv", "vm_binary_op_never_panics", "op_total",
@@ -138,6 +139,37 @@ KNOWN = [
 ]
 
 
+def misuse_histories():
+    """One interpreter used again after a snippet failed (REPL / several interpret calls): a chain of fibers, each waiting for the next,
+    whose innermost member fails in one of several ways while the others wait; later snippets then use every member of the chain in
+    every way a program can (call with/without argument, has_finished, iteration, a closure it stored).  Every such use must be a
+    reported error or a value - never a panic, a dead process, or a touched swept object."""
+    fails = {"throw": 'throw "boom";', "type-error": "var z = nil + 1;", "overflow": "fn r(n) { return r(n + 1); } r(0);",
+             "undefined": "nosuch_name;", "after-yield": 'Fiber.yield("y"); throw "late";', "bad-call": "var q = 1; q(2);"}
+    uses = ["@.call();", "@.call(1);", "print(@.has_finished());", "for x in @ { print(x); }", "var g = Fiber.new(|| { try { return @.call(); } catch e2 { return type(e2); } }); print(g.call());",
+            "@.call(); @.call();"]
+    out = []
+    for depth in (1, 2, 3):
+        for fk, fsrc in fails.items():
+            defs = ["var chain = [];", "var stash = [];"]
+            # member k creates and calls member k+1; the last one fails
+            body = "{ var loc = \"l%d\"; stash.push(|| loc); %s }" % (depth - 1, fsrc)
+            for k in range(depth - 1, 0, -1):
+                body = ("{ var loc = \"l%d\"; stash.push(|| loc); var nxt = Fiber.new(|| %s); chain.push(nxt); var got = nxt.call(); if got == \"y\" { got = nxt.call(); } "
+                        "print(\"resumed %d\"); return got; }" % (k - 1, body, k - 1))
+            first = "\n".join(defs) + "\nvar head = Fiber.new(|| %s);\nchain.push(head);\nprint(head.call());\n" % body
+            if fk == "after-yield":
+                first += "print(head.call());\n"
+            second = []
+            for m in range(depth):
+                for u in uses:
+                    second.append("try { %s } catch e { print(type(e)); }" % u.replace("@", "chain[%d]" % m))
+            second.append("for c in stash { print(c()); }")
+            second.append('print("alive");')
+            out.append(("history:chain%d/%s" % (depth, fk), [first, "\n".join(second) + "\n", 'print("alive");\n']))
+    return out
+
+
 def outcome_ok(r):
     c = progs.canon_step(r)
     if c[0] == "crash":
@@ -161,7 +193,8 @@ def correspondence(ctx, model_ok=True):
     if not ctx.thorough:
         sweeps = [p for p in sweeps if not p[0].startswith("natives3:")]
     gen = progs.generated(rng, ["expr", "control", "classes", "fibers", "exceptions", "iteration", "data", "typed", "typed-try"], 1800 if ctx.thorough else 270)
-    plist = [(n, s, {}) for n, s in sweeps] + [(n, s, m) for n, s, m, _ in gen]
+    shp = [("gen:" + n, s) for n, s in shapes.all_shapes()]
+    plist = [(n, s, {}) for n, s in sweeps] + [(n, s, m) for n, s, m, _ in gen] + [(n, s, {}) for n, s in shp]
     known = KNOWN
     builds = [("release", ctx.runner, {"gc": "default"})]
     try:
@@ -203,9 +236,32 @@ def correspondence(ctx, model_ok=True):
                                  "observed": c if c[0] != "ok" else c[:2],
                                  "signature": ("known " + name.split("-")[0]) if name.startswith("F") else "no-crash: %s: %s" % (name.split(":")[0] + ":" + name.split(":")[-1], bad.split(":")[0][:40]),
                                  "failing_input": True})
+    # one interpreter used again after a failure
+    hists = misuse_histories()
+    for bname, exe, mode in builds:
+        hl = [vlib.case_line("h%d" % i, ["S:" + vlib.hx(sn) for sn in snips], steps=20000000) for i, (_, snips) in enumerate(hists)]
+        for (hname, snips), r in zip(hists, vlib.run_real(exe, hl)):
+            n_runs += 1
+            steps = r.get("steps") if isinstance(r, dict) else None
+            bad = None
+            if not steps or len(steps) < len(snips):
+                bad = "the interpreter process died (%s)" % str(r)[:120]
+            else:
+                for st in steps:
+                    if st.get("status") == "panic":
+                        bad = "panic: %s" % str(st.get("message"))[:100]
+                    elif st.get("uaf"):
+                        bad = "touched a swept object: %s" % st["uaf"][:2]
+                last = progs.canon_step(steps[-1])
+                mid = progs.canon_step(steps[-2])
+                if not bad and (last[0] != "ok" or mid[0] != "ok" or mid[2][-1:] != ("alive",)):
+                    bad = "a use of a fiber left behind by a failed snippet was not a reported, catchable error: %s" % (str(mid)[:160],)
+            if bad:
+                failures.append({"what": "%s [%s build]: %s" % (hname, bname, bad), "history": snips, "name": hname, "build": bname,
+                                 "signature": "no-crash: %s: %s" % (hname.split("/")[0], bad.split(":")[0][:40]), "failing_input": True})
     cov = {
-        "evaluations": n_runs, "generated_runs_cut_by_the_step_budget": budget_cut,
-        "distinct_nontrivial": len(sweeps) + len(gen),
+        "evaluations": n_runs, "reuse_after_failure_histories": len(hists), "generated_runs_cut_by_the_step_budget": budget_cut,
+        "distinct_nontrivial": len(sweeps) + len(gen) + len(shp), "handler_shape_programs": len(shp),
         "rule": "sweep programs: every method name x 57 receivers/arguments of every value kind (adversarial pool) x all argument tuples of arity 0-2 "
                 "(+sampled arity 3), every binary operator x all pairs, unary/index/slice/call/property/for/display/hash/throw/type/equality/tuple/range/fiber/"
                 "derive/construct/iterator sweeps, resource-limit programs, ill-typed generated programs; builds: " + ", ".join(b for b, _, _ in builds) +
@@ -229,6 +285,19 @@ def dedupe(failures):
 
 
 def replay(ctx, payload):
+    if "history" in payload:
+        exe = ctx.runner
+        if payload.get("build", "release") != "release":
+            exe = ctx.build_runner("dev", ("safe_stack", "safe_active_fiber", "safe_class_lookup", "safe_vm_opcodes"))
+        r = vlib.run_real(exe, [vlib.case_line("h", ["S:" + vlib.hx(sn) for sn in payload["history"]], steps=20000000)])[0]
+        steps = r.get("steps") if isinstance(r, dict) else None
+        if not steps or len(steps) < len(payload["history"]):
+            return False, "the interpreter process died: %s" % str(r)[:200]
+        for st in steps:
+            if st.get("status") == "panic":
+                return False, "panic: %s" % st.get("message")
+        mid = progs.canon_step(steps[-2])
+        return (mid[0] == "ok" and mid[2][-1:] == ("alive",)), str(mid)[:500]
     if "program" not in payload:
         return False, "nothing to replay"
     exe = ctx.runner
